@@ -34,7 +34,9 @@ impl Vm {
     // Make sure we have enough space for the error class and message
     // As this isn't accounted for during compilation
     let mut fiber = self.fiber;
+    self.push_root(error_message);
     fiber.ensure_stack(self, 2);
+    self.pop_roots(1);
     fiber.push(val!(error));
     fiber.push(error_message);
 
